@@ -8,7 +8,7 @@ import (
 
 func init() {
 	propInfos["C15"] = &propInfo{
-		Explanation: "Decides the comparison shapes of the calendar test and the gating stages: (1) ContainsTime: per field, a loop over all configured ranges that is left as 'match' iff the extracted value lies in the range — minute-of-day (hour×60+minute) start-inclusive/end-exclusive, weekday/day-of-month/month/year inclusive on both sides — an unset field is skipped, a set field without match answers false, otherwise true; (2) every calendar component is extracted from the time converted to the interval's location (when set), and Intervener.Mutes hands in now.UTC(); (3) negative days of month are daysInMonth + v + 1, ranges starting beyond the month are skipped, both bounds clamped; (4) Intervener.Mutes visits every named interval and every of its time intervals, errors on an undefined name, mutes iff any matched; (5) TimeMuteStage / TimeActiveStage tables: evaluated with the flush's clock and the route's interval names, muted ⇒ no alerts, marker updated with the muting names on every evaluating path; stage order active → mute before the silencer.",
+		Explanation: "Decides the comparison shapes of the calendar test and the gating stages: (1) ContainsTime: per field, a loop over all configured ranges that is left as 'match' iff the extracted value lies in the range — minute-of-day (hour×60+minute) start-inclusive/end-exclusive, weekday/day-of-month/month/year inclusive on both sides — an unset field is skipped, a set field without match answers false, otherwise true; (2) every calendar component is extracted from the time converted to the interval's location (when set), and Intervener.Mutes hands in now.UTC(); (3) negative days of month are daysInMonth + v + 1, ranges starting beyond the month are skipped, both bounds clamped; (4) Intervener.Mutes visits every named interval and every of its time intervals, errors on an undefined name, mutes iff any matched; (5) TimeMuteStage / TimeActiveStage tables: evaluated with the flush's clock and the route's interval names, muted ⇒ no alerts, marker updated with the muting names on every evaluating path; stage order active → mute before the silencer; a time range prints as it parses (hour = minute/60, minute%60 of its own bounds, never through the clock formatter).",
 		NotDecided:  "calendar arithmetic itself (time.Time methods, daysInMonth, DST transitions): numerical / library.",
 		Trusted:     []string{"time.Time.In/Hour/Minute/Day/Month/Weekday/Year are correct for every instant and zone"},
 	}
